@@ -99,6 +99,7 @@ func isIdentifierPart(chr rune) bool {
 	return chr == '$' || chr == '_' || chr == '\\' ||
 		'a' <= chr && chr <= 'z' || 'A' <= chr && chr <= 'Z' ||
 		'0' <= chr && chr <= '9' ||
+		chr == '\u200c' || chr == '\u200d' || // <ZWNJ>, <ZWJ> (7.6)
 		chr >= utf8.RuneSelf && unicodeIDContinue(chr)
 }
 
